@@ -90,7 +90,9 @@ func (x *Exec) verifyFunction() {
 			case cevalErr:
 				x.err = fmt.Errorf("contract error: %s", e.msg)
 			default:
-				panic(r)
+				// e.g. a contract whose names now denote values of another shape: the function is undecided, the
+				// other functions of the run are still checked
+				x.err = fmt.Errorf("contract error: cannot evaluate the contract on this body (%v)", r)
 			}
 		}
 	}()
@@ -1218,7 +1220,7 @@ func (x *Exec) checkStoreSite(st *State, i *ssa.Store) {
 				st.assume(env.evalBool(u))
 			}
 			for _, cl := range x.fc.StoreReq[key] {
-				x.assert(st, fmt.Sprintf("site:store:%s:%s", key, cl.Label), env.evalBool(cl.Expr), cl.Text, i.Pos())
+				x.assertClause(st, fmt.Sprintf("site:store:%s:%s", key, cl.Label), env, cl.Expr, cl.Text, i.Pos())
 			}
 			for _, g := range x.fc.StoreGhost[key] {
 				if _, ok := st.ghost[g.Name]; !ok {
@@ -1963,4 +1965,31 @@ func (x *Exec) concat(st *State, a, b SV, ty types.Type) SV {
 	st.heap["S:byte"] = Store(arr, id, na)
 	n := Add(a.Len, b.Len)
 	return SV{K: KSeq, Ty: ty, Id: id, Off: IntC(0), Len: n, Cap: n}
+}
+
+// assertClause asserts a call-site / store-site clause.  A clause that cannot be evaluated on this body (it names a
+// local that no longer exists, or one of another shape) becomes a failed obligation of its own, so that the rest of the
+// function is still verified and a real defect behind the change is reported with its own counterexample.
+func (x *Exec) assertClause(st *State, name string, env *CEnv, e *CExpr, text string, pos token.Pos) {
+	var t *Term
+	func() {
+		defer func() {
+			if r := recover(); r != nil {
+				if _, ok := r.(unsupported); ok {
+					panic(r)
+				}
+				msg := fmt.Sprint(r)
+				if ce, ok := r.(cevalErr); ok {
+					msg = ce.msg
+				}
+				if x.clauseErr == nil {
+					x.clauseErr = fmt.Errorf("%s: %s", name, msg)
+				}
+				text = "clause cannot be evaluated on this body (" + msg + "): " + text
+				t = tFalse
+			}
+		}()
+		t = env.evalBool(e)
+	}()
+	x.assert(st, name, t, text, pos)
 }
